@@ -506,6 +506,9 @@ pub fn for_each_request(ctx: &mut Ctx, label: &str, mut f: impl FnMut(&mut Ctx, 
             if has_skip_include(&ec.doc) {
                 ctx.class("feature", "skip-include");
             }
+            if crate::monitors::execkit::has_skip_and_include_together(&ec.doc) {
+                ctx.class("feature", "skip-and-include-on-one-selection");
+            }
             if ec.doc.frags().next().is_some() {
                 ctx.class("feature", "named-fragments");
             }
